@@ -26,6 +26,8 @@ NETS = [n for _, ns in FAMILIES for n in ns]
 WTS = ['legacy', 'p2sh-segwit', 'segwit']
 PRIV_FMTS = ['hex', 'hex01', 'bytes', 'bytes01', 'int', 'dec', 'wif', 'xprv', 'bip38']
 PUB_FMTS = ['pubhex', 'pubbytes', 'point', 'xpub']
+CONV_FMTS = ['pubhex_c', 'pubhex_u', 'pubbytes_c', 'pubbytes_u']       # importable: both encodings of every public key
+VIEW_FMTS = ['px', 'py', 'd_pubhex', 'd_pubhex_u', 'd_px', 'd_py', 'addr_u']   # views of the point, not importable
 HINT_NAMES = ['net', 'priv', 'comp', 'wt', 'ms']
 SECRET_CLASSES = ['rand', 'lz1', 'lz2', 'lz3', 'lead02', 'lead03', 'tail01', 'lead02tail01', 'big78', 'rand2']
 # 'pubtail01': the x coordinate of the public key ends in 01 (a compressed public key shaped like secret+01); ground
@@ -95,7 +97,7 @@ def spec_key(k):
                               'fp', 'chain')}
 
 
-def fmts_of(k, with_bip38):
+def fmts_of(k, with_bip38, conversions=False):
     fs = []
     if k['priv']:
         for f in PRIV_FMTS:
@@ -110,6 +112,12 @@ def fmts_of(k, with_bip38):
         if f == 'xpub' and not k['hd']:
             continue
         fs.append(f)
+    if conversions:
+        for f in CONV_FMTS + VIEW_FMTS:
+            # the dictionary view includes the key's address: an uncompressed key of a segwit type has none
+            if f.startswith('d_') and not (k['compressed'] or not k['hd'] or k['wt'] == 'legacy'):
+                continue
+            fs.append(f)
     return fs
 
 
@@ -240,6 +248,23 @@ def export(o, k, fmt):
         return o.public_point()
     if fmt == 'bip38':
         return o.encrypt(PW)
+    if fmt == 'pubhex_c':
+        return o.public_compressed_hex
+    if fmt == 'pubhex_u':
+        return o.public_uncompressed_hex
+    if fmt == 'pubbytes_c':
+        return o.public_compressed_byte
+    if fmt == 'pubbytes_u':
+        return o.public_uncompressed_byte
+    if fmt == 'px':
+        return o.x
+    if fmt == 'py':
+        return o.y
+    if fmt == 'addr_u':
+        return o.address_uncompressed(script_type='p2pkh', encoding='base58')
+    if fmt.startswith('d_'):
+        return o.as_dict()[{'d_pubhex': 'public_hex', 'd_pubhex_u': 'public_uncompressed_hex', 'd_px': 'point_x',
+                            'd_py': 'point_y'}[fmt]]
     raise ValueError(fmt)
 
 
@@ -359,6 +384,8 @@ def entry_points(k, fmt):
         return ['hd', 'hdfw']
     if fmt == 'wif':
         return ['key', 'keyfw', 'hd']
+    if fmt in VIEW_FMTS:
+        return []
     return ['key', 'hd']
 
 
@@ -371,21 +398,35 @@ def drive(job):
     rng = random.Random(job['seed'])
     thorough = job['thorough']
     out = []
+    route = job.get('route') or NOROUTE
+
     def fresh(fmt):
-        """A new object of the key, with the history replayed on it ('export' = the export of fmt itself)."""
+        """A new object of the key, made by the route, with the history replayed on it ('export' = the export of fmt itself)."""
         try:
-            obj = construct(job['key0'])
+            if route['r'] == 'import':
+                names = ['net', 'priv', 'comp'] if route['ep'] == 'key' else HINT_NAMES
+                obj = import_call(route['ep'], to_py(job['rin']), job['key0'], route['fmt'], frozenset(names))
+            elif route['r'] == 'public':
+                obj = construct(job['key0']).public()
+            elif route['r'] == 'child':
+                obj = derive_child(route)
+            else:
+                obj = construct(job['key0'])
             for op in hist:
                 apply_op(obj, op, job['key0'], fmt)
-            return obj, observe(obj, 'ctor')
+            return obj
         except Exception:
-            return None, dict(NORES)
+            return None
 
-    o, ctor = fresh(job['items'][0]['fmt'] if job['items'] else None)
+    # the object's state is observed on an object of its own: reading attributes must not prepare the exports
+    o = fresh(job['items'][0]['fmt'] if job['items'] else None)
+    try:
+        ctor = observe(o, 'ctor') if o is not None else dict(NORES)
+    except Exception:
+        ctor = dict(NORES)
     for n_item, item in enumerate(job['items']):
         fmt = item['fmt']
-        if hist and n_item:
-            o = fresh(fmt)[0]
+        o = fresh(fmt)
         pool = [b'']
         index = {b'': 1}
 
@@ -422,7 +463,7 @@ def drive(job):
             if fmt in ('wif', 'xprv', 'xpub', 'bip38'):
                 det = detect(value)
             for ep in entry_points(k, fmt):
-                for hs in hint_sets(ep, fmt, thorough, rng, lite=bool(hist) and not thorough):
+                for hs in hint_sets(ep, fmt, thorough, rng, lite=((bool(hist) or job.get('litehints')) and not thorough) or fmt in CONV_FMTS):
                     try:
                         res = observe(import_call(ep, value, k, fmt, hs), fmt)
                     except Exception:
@@ -431,10 +472,127 @@ def drive(job):
                     groups.setdefault(repr(sorted(p.items())), [p, []])[1].append(
                         {'ep': ep, 'h': {h: (h in hs) for h in HINT_NAMES}})
                     ncalls += 1
-        out.append({'k': 'judge', 'fmt': fmt, 'spec': spec or {'t': 'none', 'v': [], 'w': []}, 'code': code,
+        if 'h160u' in item:
+            out.append({'h160u': item['h160u']})
+        else:
+            out.append({})
+        out[-1].update({'k': 'judge', 'fmt': fmt, 'spec': spec or {'t': 'none', 'v': [], 'w': []}, 'code': code,
                     'devstr': item.get('devstr', []), 'det': det, 'pool': [list(b) for b in pool],
                     'groups': [{'res': g[0], 'calls': g[1]} for g in groups.values()], 'ncalls': ncalls})
     return out
+
+
+NOROUTE = {'r': 'ctor', 'fmt': '', 'ep': ''}
+
+
+def derive_child(route):
+    parent = construct(route['parent'])
+    if route['via'] == 'private_public':
+        return parent.child_private(route['ci']).public()
+    return parent.child_public(route['ci'])
+
+
+def route_name(route):
+    return 'import:' + route['fmt'] if route['r'] == 'import' else route['r']
+
+
+# ------------------------------------------------------------------------------------------------------------------
+# value classes (defined by the specification: ValueClasses / RequiredCover; the predicates below only steer the search
+# for inputs - whether the run covers what the specification requires is answered by TLC, see `cover`)
+# ------------------------------------------------------------------------------------------------------------------
+POINT_TARGETS = [('y-zero-byte', lambda x, y: y >> 248 == 0), ('y-zero-nibble', lambda x, y: y >> 252 == 0 and y >> 248 != 0),
+                 ('x-zero-byte', lambda x, y: x >> 248 == 0), ('x-zero-nibble', lambda x, y: x >> 252 == 0 and x >> 248 != 0),
+                 ('plain', lambda x, y: x >> 252 != 0 and y >> 252 != 0)]
+
+
+def grind_scalars(start, want_each=4, limit=40000):
+    """Small scalars s = start, start+1, ... (reference curve arithmetic) whose points fall into the target classes;
+    for every target the first `want_each` of each parity of y."""
+    found = {(name, par): [] for name, _ in POINT_TARGETS for par in (0, 1)}
+    pt = ref.ec_mul(start)
+    s = start
+    for _ in range(limit):
+        for name, pred in POINT_TARGETS:
+            if pred(pt[0], pt[1]) and len(found[(name, pt[1] & 1)]) < want_each:
+                found[(name, pt[1] & 1)].append((s, pt))
+        if all(len(v) >= want_each for v in found.values()):
+            break
+        s += 1
+        pt = ref.ec_add(pt, ref.G)
+    return found
+
+
+def key_from_scalar(s, pt, net, wt, ms, priv, comp, hd, i):
+    k = {'priv': priv, 'secret': list(s.to_bytes(32, 'big')) if priv else [], 'x': list(pt[0].to_bytes(32, 'big')),
+         'y': list(pt[1].to_bytes(32, 'big')), 'compressed': comp, 'network': net, 'wt': wt, 'ms': ms, 'hd': hd,
+         'depth': DEPTHS[i % len(DEPTHS)] if hd else 0, 'index': list((INDEXES[i % len(INDEXES)] if hd else 0).to_bytes(4, 'big')),
+         'fp': [0, 7, i % 256, 9] if hd else [0] * 4, 'chain': [0] + [(i * 11 + j) % 256 for j in range(31)] if hd else [0] * 32,
+         'sclass': 'small-scalar'}
+    return k
+
+
+def routed_cases(rng, thorough):
+    """Public-only objects reached through every route x every point class (both parities of y spread over them)."""
+    found = grind_scalars(1 + rng.randrange(100000), want_each=6 if thorough else 3)
+    configs = [(n, w, m) for n in ('bitcoin', 'testnet', 'litecoin', 'litecoin_testnet', 'dogecoin', 'bitcoinlib_test', 'regtest')
+               for w in WTS for m in (False, True) if defined(n, w)]
+    cases = []
+    routes = [('import', 'pubhex_c'), ('import', 'pubbytes_c'), ('import', 'pubhex_u'), ('import', 'pubbytes_u'),
+              ('import', 'point'), ('import', 'xpub'), ('public', ''), ('child', '')]
+    n = 0
+    for ri, (r, rfmt) in enumerate(routes):
+        for ti, (name, _) in enumerate(POINT_TARGETS):
+            for rep in range(2 if thorough else 1):
+                par = (ri + ti + rep) % 2
+                s, pt = found[(name, par)][(ri + rep) % len(found[(name, par)])] if found[(name, par)] else \
+                    found[(name, 1 - par)][0]
+                net, wt, ms = configs[n % len(configs)]
+                ep = 'hd' if (rfmt == 'xpub' or n % 2) else 'key'
+                hd = rfmt == 'xpub' or (r == 'public' and n % 2 == 0) or (r == 'import' and n % 3 == 0)
+                if r == 'child':
+                    cases.append({'child_of': (net, wt, ms, n % 2 == 0, name, par, n)})
+                else:
+                    k = key_from_scalar(s, pt, net, wt, ms, r == 'public' or n % 4 == 1, True, hd, n)
+                    if rfmt in ('pubhex_u', 'pubbytes_u') or (rfmt == 'point' and n % 2):
+                        k['compressed'] = False
+                        k['wt'] = 'legacy'      # an uncompressed key has no segwit address
+                    cases.append({'key': k, 'route': {'r': r, 'fmt': rfmt, 'ep': ep if r == 'import' else ''}})
+                n += 1
+    return cases
+
+
+def child_case(spec, rng):
+    """A child of an extended key whose point falls into the wanted class: the child number is found with the
+    implementation, the abstract key of the child is computed with the reference primitives (CKDpub of BIP32)."""
+    net, wt, ms, parent_priv, name, par, n = spec
+    pred = dict(POINT_TARGETS)[name]
+    s = 1000 + rng.randrange(10 ** 6)
+    parent = key_from_scalar(s, ref.ec_mul(s), net, wt, ms, parent_priv, True, True, n)
+    parent['depth'] = min(parent['depth'], 254)
+    po = construct(parent)
+    base = rng.randrange(2 ** 20)
+    ci = None
+    for i in range(base, base + 20000):
+        c = po.child_public(i)
+        b = c.public_compressed_byte
+        x = int.from_bytes(b[1:], 'big')
+        y = ref.lift_x(x, b[0] & 1)
+        if y is not None and pred(x, y[1]) and (y[1] & 1) == par:
+            ci = i
+            break
+    if ci is None:
+        return None
+    ppt = (int.from_bytes(bytes(parent['x']), 'big'), int.from_bytes(bytes(parent['y']), 'big'))
+    serp = ref.ser_point(ppt, True)
+    I = ref.hmac512(bytes(parent['chain']), serp + ci.to_bytes(4, 'big'))
+    cpt = ref.ec_add(ref.ec_mul(int.from_bytes(I[:32], 'big')), ppt)
+    k = {'priv': False, 'secret': [], 'x': list(cpt[0].to_bytes(32, 'big')), 'y': list(cpt[1].to_bytes(32, 'big')),
+         'compressed': True, 'network': net, 'wt': wt, 'ms': ms, 'hd': True, 'depth': parent['depth'] + 1,
+         'index': list(ci.to_bytes(4, 'big')), 'fp': list(ref.hash160(serp)[:4]), 'chain': list(I[32:]), 'sclass': 'child'}
+    if k['depth'] > 255:
+        return None
+    return {'key': k, 'route': {'r': 'child', 'fmt': '', 'ep': '', 'parent': parent, 'ci': ci,
+                                'via': 'private_public' if parent_priv and n % 4 == 0 else 'child_public'}}
 
 
 # ------------------------------------------------------------------------------------------------------------------
@@ -466,6 +624,19 @@ def sample_keys(rng, thorough):
         for rep in range(3 if thorough else 1):
             keys.append(make_key(rng, 'bitcoin', WTS[(i + rep) % 3], (i + rep) % 2 == 1, True, True, i % 2 == 0, sclass,
                                  i + rep, i))
+            keys[-1]['conv'] = True          # with both encodings and the views of the public point
+    # every extended private version (family x witness type x multisig) with a secret that has leading zero bytes
+    n = 0
+    for fam, nets in FAMILIES:
+        for wt in WTS:
+            if not defined(nets[0], wt):
+                continue
+            for ms in (False, True):
+                keys.append(make_key(rng, nets[n % len(nets)], wt, ms, True, True, True, ('lz1', 'lz2', 'lz3')[n % 3],
+                                     n, n))
+                keys[-1]['lite'] = True
+                keys[-1]['litehints'] = True
+                n += 1
     # public keys whose x coordinate ends in 01
     for i in range(4 if thorough else 2):
         keys.append(make_key(rng, 'bitcoin', WTS[i % 3], False, i % 2 == 0, True, i % 2 == 1, 'pubtail01', i, i))
@@ -510,7 +681,7 @@ def run(replay=None):
                'family, witness type, multisig, private, compressed, HD, secret class, hint set). Keys: every defined '
                'network x witness type x multisig with private/public, compressed/uncompressed, HD/plain shapes; '
                'secrets with 0-3 leading zero bytes, 02/03 first byte, 01 last byte, >= 10^77; depths 0/1/5/255; child '
-               'numbers 0,1,255,256,2^31-1,2^31,2^31+5,2^32-1; every second key (all in thorough) once more after a history of 1-3 '
+               'numbers 0,1,255,256,2^31-1,2^31,2^31+5,2^32-1; every third key (all in thorough) once more after a history of 1-3 '
                'earlier calls on the same object (observers wif/wif_key/wif_private/wif_public/address/public/as_dict and '
                'network_change to rotating target networks, 8 templates)')
     ck.assumptions = ['TLC evaluates KeyFormats.tla correctly',
@@ -539,19 +710,32 @@ def run(replay=None):
         only = None
     # export after a history: the same keys again, with 1-3 earlier calls on the object (no BIP38: scrypt)
     hists = [[] for _ in keys]
+    routes = [NOROUTE for _ in keys]
     if replay:
         hists = [replay['case'].get('hist', [])]
+        routes = [replay['case'].get('route', NOROUTE)]
     else:
         targets = list(NETS)
         rng.shuffle(targets)
         base = list(keys)
         for i, k in enumerate(base):
             for rep in range(2 if thorough else 1):
-                if thorough or i % 2 == 0:
+                if thorough or i % 3 == 0:
                     kk = dict(k)
                     kk['lite'] = False
                     keys.append(kk)
-                    hists.append(make_history(k, i // (1 if thorough else 2) * (rep + 1) + rep, targets))
+                    hists.append(make_history(k, i // (1 if thorough else 3) * (rep + 1) + rep, targets))
+                    routes.append(NOROUTE)
+        # public-only objects by every route x every point class; all public exports and views of them
+        for c in routed_cases(rng, thorough):
+            if 'child_of' in c:
+                c = child_case(c['child_of'], rng)
+                if c is None:
+                    continue
+            c['key']['conv'] = True
+            keys.append(c['key'])
+            hists.append([])
+            routes.append(c['route'])
     nbip = 0
     plan = []
     for i, k in enumerate(keys):
@@ -559,7 +743,9 @@ def run(replay=None):
         # key has no segwit address to be bound to
         with_bip38 = k['priv'] and (bool(replay) or thorough or i % 23 == 0) and not (k['hd'] and k['ms']) and \
             (k['compressed'] or k['wt'] == 'legacy' or not k['hd'])
-        fs = fmts_of(k, with_bip38 and not hists[i])
+        fs = fmts_of(k, with_bip38 and not hists[i], conversions=bool(k.get('conv')) or bool(replay))
+        if routes[i]['r'] != 'ctor':      # the object is public-only; what it cannot express comes back as "undef"
+            fs = PUB_FMTS + CONV_FMTS + VIEW_FMTS
         if k.get('lite'):
             fs = [f for f in fs if f in ('wif', 'xprv', 'xpub', 'bip38')]
         if only:
@@ -568,44 +754,64 @@ def run(replay=None):
         plan.append(fs)
 
     # ---------------- (G) pass 1: representations at payload level; pass 2: Base58 strings
-    gen = common.tlc_eval('KeyFormatsEval', [{'k': 'gen', 'key': spec_key(k), 'hist': hi, 'fmts': fs}
-                                              for k, hi, fs in zip(keys, hists, plan)], procs=4)
+    def spec_route(rt):
+        return {f: rt[f] for f in ('r', 'fmt', 'ep')}
+
+    gen = common.tlc_eval('KeyFormatsEval', [{'k': 'gen', 'key': spec_key(k), 'route': spec_route(rt), 'hist': hi, 'fmts': fs}
+                                              for k, rt, hi, fs in zip(keys, routes, hists, plan)], procs=8)
     t0 = _t('gen', t0)
     want = []
-    for g in gen:
-        for e in g['exp']:
+    pairs = set()
+    for g, rt in zip(gen, routes):
+        for e in g['exp'] + [g['rin']]:
             for payload in ([e['v']] if e['t'] == 'b58c' else []) + ([e['dv']] if e['dv'] else []):
                 want.append(payload)
+        if rt['r'] != 'ctor':
+            pairs.update((route_name(rt), c) for c in g['classes'])
+        pairs.update(('xprv', c) for c in g['xcover'])
     items = [[p, list(ref.sha256d(bytes(p))[:4])] for p in want]
     chunk = 25
     strs = common.tlc_eval('KeyFormatsEval', [{'k': 'str', 'items': items[i:i + chunk]}
-                                               for i in range(0, len(items), chunk)])
-    strs = [s for r in strs for s in r['exp']]
+                                               for i in range(0, len(items), chunk)]
+                           + [{'k': 'cover', 'pairs': sorted(list(p) for p in pairs)}])
+    missing = strs[-1]['exp']
+    if missing and not replay:
+        raise common.MachineryError('the sampled keys do not cover what the specification requires: %s' % missing)
+    strs = [s for r in strs[:-1] for s in r['exp']]
     t0 = _t('str', t0)
     it = iter(strs)
     jobs = []
     keys0 = keys
     keys = []
-    for ki, (k, hi, g) in enumerate(zip(keys0, hists, gen)):
-        ka = dict(g['after'])         # the key after its history, computed by the specification
+    for ki, (k, rt, hi, g) in enumerate(zip(keys0, routes, hists, gen)):
+        ka = dict(g['after'])         # the key of the exported object (route, history), computed by the specification
         ka['sclass'] = k.get('sclass')
         ka['hist'] = hi
+        ka['route'] = rt
         ka['key0'] = k
         keys.append(ka)
         its = []
         exps = [e for e in g['exp'] if e['t'] != 'undef']
         for e in exps:
             spec = {'t': e['t'], 'v': e['v'], 'w': e['w']}
+            item = {'fmt': e['fmt'], 'first': exps[0]['fmt']}
             if e['t'] == 'b58c':
                 spec = {'t': 'str', 'v': next(it), 'w': []}
             elif e['t'] == 'opaque':
                 spec = None
-            item = {'fmt': e['fmt'], 'spec': spec, 'first': exps[0]['fmt']}
+            elif e['t'] == 'hash160':     # the specification built the bytes, the reference primitive hashes them
+                item['h160u'] = list(ref.hash160(bytes(e['v'])))
+                spec = None
+            item['spec'] = spec
             if e['dv']:
                 item['devstr'] = next(it)
             its.append(item)
-        jobs.append({'key': spec_key(ka), 'key0': k, 'hist': hi, 'items': its, 'seed': common.seed() * 1000003 + ki,
-                     'thorough': thorough})
+        rin = g['rin']
+        if rin['t'] == 'b58c':
+            rin = {'t': 'str', 'v': next(it), 'w': []}
+        jobs.append({'key': spec_key(ka), 'key0': k, 'route': rt, 'rin': {f: rin[f] for f in ('t', 'v', 'w')}, 'hist': hi,
+                     'items': its, 'seed': common.seed() * 1000003 + ki, 'thorough': thorough,
+                     'litehints': bool(k.get('litehints')) or rt['r'] != 'ctor'})
 
     # ---------------- drive bitcoinlib
     if len(jobs) > 4:
@@ -638,14 +844,16 @@ def run(replay=None):
             k['depth'], bytes(k['index']).hex()) + (
             ' after %s on a key made for %s' % (', '.join(o['op'] + ('(%s)' % o['n'] if o['n'] else '()')
                                                            for o in k['hist']), k['key0']['network'])
-            if k.get('hist') else '')
+            if k.get('hist') else '') + (
+            ' [object made by %s%s]' % (route_name(k['route']), ' via ' + k['route']['ep'] if k['route'].get('ep') else '')
+            if k.get('route', NOROUTE)['r'] != 'ctor' else '')
 
     ncalls = 0
     for k, r, v in zip(owner, recs, verdicts):
         fmt = r['fmt']
         base = (fmt, FAMILY_OF[k['network']], k['wt'], k['ms'], k['priv'], k['compressed'], k['hd'], k.get('sclass'),
-                tuple((o['op'], FAMILY_OF.get(o['n'])) for o in k.get('hist', [])))
-        case = {'key': k['key0'], 'hist': k.get('hist', []), 'fmt': fmt}
+                tuple((o['op'], FAMILY_OF.get(o['n'])) for o in k.get('hist', [])), route_name(k.get('route', NOROUTE)))
+        case = {'key': k['key0'], 'hist': k.get('hist', []), 'route': k.get('route', NOROUTE), 'fmt': fmt}
         shown = to_py(r['spec']) if r['spec']['t'] in ('str', 'bytes', 'int', 'point') else None
         if isinstance(shown, bytes):
             shown = shown.hex()
@@ -686,6 +894,7 @@ def run(replay=None):
                                                                         else '')[:120],
                    'imports': sum(len(g['calls']) for g in r['groups'])}, limit=8)
     ck.notes['keys'] = len(keys)
+    ck.notes['public_objects_by_route'] = sum(1 for k in keys if k.get('route', NOROUTE)['r'] != 'ctor')
     ck.notes['keys_exported_after_a_history'] = sum(1 for k in keys if k.get('hist'))
     ck.notes['representations'] = len(recs)
     ck.notes['bip38_keys'] = nbip
